@@ -22,7 +22,9 @@ RULE = ('random histories of __setitem__ with plain and composite keys of '
         'children - visible ones and handles kept beneath newer ones in '
         'deeper layers - are detached. Non-trivial = a composite key of depth>=3 '
         'creating an implicit map, an overwrite across kinds, or a clear of a '
-        'layered map.')
+        'layered map.'
+        ' Rounds 11-13 added: displaced maps assigned again; assignments the'
+        ' map refuses; the pinned suite under the back-link invariants.')
 ANCHORS = [
     'desper/model/tree.py::ResourceMap.get',
     'desper/model/tree.py::ResourceMap.__getitem__',
